@@ -16,6 +16,7 @@ import (
 
 	"verifharness/internal/common"
 	"verifharness/internal/coqfmt"
+	"verifharness/internal/load"
 	"verifharness/internal/probes"
 )
 
@@ -480,6 +481,9 @@ func endToEnd(meta *common.Meta, tier string, seed int64, outDir string, names [
 	ws := filepath.Join(outDir, "ws")
 	common.WriteFile(filepath.Join(ws, "go.mod"), "module e2e\n\ngo 1.20\n")
 	common.WriteFile(filepath.Join(ws, "a.go"), "package e2e\n\nfunc F(xs []int) int { return len(xs) }\n")
+	// a file on which many checkers, rule groups among them, have something to say: which rules fire is observable
+	common.WriteFile(filepath.Join(ws, "b.go"), "package e2e\n\nimport \"strings\"\n\nfunc P(xs []int, s string, IN int) (int, bool) {\n\tn := 0\n\tn = n + 1\n\tif len(xs) >= 0 {\n\t\tn++\n\t}\n\tif len(s) == 0 {\n\t\tn++\n\t}\n\tys := xs[:]\n\tb := strings.Index(s, \"x\") >= 0\n\tif !(n != 1) {\n\t\tn--\n\t}\n\tswitch {\n\tcase n > 1:\n\t\tn++\n\t}\n\tvar err error\n\t_ = err\n\tzs := append(ys, 1)\n\tys = append(zs, 2)\n\treturn n + len(ys) + IN, b\n}\n")
+	ref := referenceMessages(meta, ws, names)
 	n := 6
 	if tier == "thorough" {
 		n = 150
@@ -556,6 +560,10 @@ func endToEnd(meta *common.Meta, tier string, seed int64, outDir string, names [
 					meta.Fail("C06/"+exe+"/e2e-attribution", "diagnostic attributed to unselected checker: "+line, args)
 				}
 			}
+			checkOwnMessages(meta, exe, args, out, ref)
+			if exe == "go-critic" {
+				ran += envInvariance(meta, ws, env, bin, exe, args, out)
+			}
 		}
 	}
 	// the analysis binaries, in the analyzer's flag dialect: 'is enabled' lines of -debug-init, and an
@@ -623,6 +631,10 @@ func endToEnd(meta *common.Meta, tier string, seed int64, outDir string, names [
 			}
 			if len(want) == 0 && (code == 0 || !strings.Contains(out, "empty checkers set selected")) {
 				meta.Fail("C06/"+exe+"/e2e-empty", fmt.Sprintf("empty selection is not reported as an error: exit=%d output=%q", code, tail(out)), args)
+			}
+			checkOwnMessages(meta, exe, args, out, ref)
+			if exe == "go-critic-analysis" {
+				ran += envInvariance(meta, ws, env, bin, exe, args, out)
 			}
 		}
 	}
@@ -786,4 +798,108 @@ func GenRegistry(outDir string) error {
 	common.WriteFile(filepath.Join(outDir, "Registry.v"), b.String())
 	_ = linter.GetCheckersInfo
 	return nil
+}
+
+var ownDiagRE = regexp.MustCompile(`^(\S+\.go):(\d+):(\d+): (\w+): (.*)$`)
+
+// referenceMessages: what every registered checker, run through the library on the workspace, reports:
+// checker -> set of "base.go:line:col: message". A front-end may only print, under a checker's name, what that
+// checker itself reports.
+func referenceMessages(meta *common.Meta, ws string, names []string) map[string]map[string]bool {
+	ref := map[string]map[string]bool{}
+	fset, pkgs, err := load.Packages(ws, common.GoEnv(), "./...")
+	if err != nil {
+		meta.Notes = append(meta.Notes, "e2e reference: load failed: "+err.Error())
+		return nil
+	}
+	sel := map[string]bool{}
+	for _, n := range names {
+		if n != "ruleguard" {
+			sel[n] = true
+		}
+	}
+	ctx := load.NewContext(fset)
+	cs, err := load.Checkers(ctx, sel)
+	if err != nil {
+		meta.Notes = append(meta.Notes, "e2e reference: "+err.Error())
+		return nil
+	}
+	for _, pkg := range pkgs {
+		load.CheckPackage(ctx, cs, pkg, func(full string, c *linter.Checker, ws []linter.Warning) {
+			for _, w := range ws {
+				pos := fset.Position(w.Pos)
+				if ref[c.Info.Name] == nil {
+					ref[c.Info.Name] = map[string]bool{}
+				}
+				ref[c.Info.Name][fmt.Sprintf("%s:%d:%d: %s", filepath.Base(pos.Filename), pos.Line, pos.Column, w.Text)] = true
+			}
+		})
+	}
+	meta.Distribution["e2e_reference_checkers_with_findings"] = len(ref)
+	return ref
+}
+
+func checkOwnMessages(meta *common.Meta, exe string, args []string, out string, ref map[string]map[string]bool) {
+	if ref == nil {
+		return
+	}
+	for _, line := range strings.Split(out, "\n") {
+		m := ownDiagRE.FindStringSubmatch(line)
+		if m == nil || m[4] == "ruleguard" {
+			continue
+		}
+		key := fmt.Sprintf("%s:%s:%s: %s", filepath.Base(m[1]), m[2], m[3], m[5])
+		if !ref[m[4]][key] {
+			owner := ""
+			for c, set := range ref {
+				if set[key] {
+					owner = c
+				}
+			}
+			what := fmt.Sprintf("%s prints %q under the name of %s, which does not report that itself", exe, line, m[4])
+			if owner != "" {
+				what += " (it is what " + owner + " reports)"
+			}
+			meta.Fail("C06/"+exe+"/e2e-message-not-of-this-checker", what, map[string]interface{}{"exe": exe, "args": args, "line": line})
+		}
+	}
+}
+
+// envInvariance repeats a run under the tool's own debugging environment variables (GOCRITIC_RULEGUARD_DEBUG, DEBUG):
+// the selection ('is enabled' lines) and the diagnostics must be what they are without them.
+func envInvariance(meta *common.Meta, ws string, env []string, bin, exe string, args []string, plain string) int {
+	dbgEnv := append(append([]string(nil), env...), "GOCRITIC_RULEGUARD_DEBUG=1", "DEBUG=1")
+	out, _, err := common.Run(120*time.Second, ws, dbgEnv, filepath.Join(bin, exe), args...)
+	if err != nil {
+		meta.Fail("C06/"+exe+"/e2e-run", "binary did not finish under GOCRITIC_RULEGUARD_DEBUG=1: "+err.Error(), args)
+		return 1
+	}
+	diags := func(s string) []string {
+		seen := map[string]bool{}
+		var l []string
+		for _, line := range strings.Split(s, "\n") {
+			if ownDiagRE.MatchString(line) && !seen[line] {
+				seen[line] = true
+				l = append(l, line)
+			}
+		}
+		sort.Strings(l)
+		return l
+	}
+	a, b := diags(plain), diags(out)
+	if !eqStrs(a, b) || !eqStrs(parseEnabled(plain), parseEnabled(out)) {
+		missing, extra := 0, []string{}
+		in := map[string]bool{}
+		for _, x := range a {
+			in[x] = true
+		}
+		for _, x := range b {
+			if !in[x] {
+				extra = append(extra, x)
+			}
+		}
+		missing = len(a) + len(extra) - len(b)
+		meta.Fail("C06/"+exe+"/e2e-output-depends-on-debug-environment", fmt.Sprintf("%s %v: with GOCRITIC_RULEGUARD_DEBUG=1 DEBUG=1 the run prints %d diagnostics (%d without); extra: %v; missing: %d; enabled sets equal: %v", exe, args, len(b), len(a), head(extra, 3), missing, eqStrs(parseEnabled(plain), parseEnabled(out))), map[string]interface{}{"exe": exe, "args": args, "env": "GOCRITIC_RULEGUARD_DEBUG=1 DEBUG=1"})
+	}
+	return 1
 }
